@@ -28,7 +28,8 @@ structure Run (views : Nat → Option FileView) (gfuel i : Nat) (f : File) (rf :
         (mkCE views gfuel i (mkEnv n2cL incs) (mkCur (mkEnv n2cL incs) tds.val.types f))) f.constants) = .ok cs
   e5 : flatOut (mapOut (resolveStructLikeDef
         (mkCE views gfuel i (mkEnv n2cL incs) (mkCur (mkEnv n2cL incs) tds.val.types f))) f.structLikes) = .ok ss
-  e6 : flatOut (mapOut (resolveServiceDef (mkEnv n2cL incs)) f.services) = .ok svs
+  e6 : flatOut (mapOut (resolveServiceDef
+        (mkCE views gfuel i (mkEnv n2cL incs) (mkCur (mkEnv n2cL incs) tds.val.types f))) f.services) = .ok svs
   e7 : resolveTypedefs (mkLE views incs (mkCur (mkEnv n2cL incs) tds.val.types f))
         (tds.work ++ cs.work ++ ss.work ++ svs.work) = .ok st
   e8 : rf = { n2c := n2cL
@@ -62,7 +63,8 @@ theorem resolveAST_run {views : Nat → Option FileView} {gfuel i : Nat} {f : Fi
           | error e => rw [h5] at h; simp at h
           | ok ss =>
             rw [h5] at h; simp only at h
-            cases h6 : flatOut (mapOut (resolveServiceDef (mkEnv n2cL incs)) f.services) with
+            cases h6 : flatOut (mapOut (resolveServiceDef
+                (mkCE views gfuel i (mkEnv n2cL incs) (mkCur (mkEnv n2cL incs) tds.val.types f))) f.services) with
             | error e => rw [h6] at h; simp at h
             | ok svs =>
               rw [h6] at h; simp only at h
@@ -108,8 +110,8 @@ theorem Run.traces {views : Nat → Option FileView} {gfuel i : Nat} {f : File} 
     (fun c o ho => resolveConstantDef_trace ho) f.constants R.cs (by rw [← hce]; exact R.e4)
   have t3 := flatOut_mapOut_trace (ce := ce) (resolveStructLikeDef ce) _
     (fun c o ho => resolveStructLikeDef_trace ho) f.structLikes R.ss (by rw [← hce]; exact R.e5)
-  have t4 := flatOut_mapOut_trace (ce := ce) (resolveServiceDef (mkEnv R.n2cL R.incs)) svcEvs
-    (fun c o ho => by rw [← hceenv] at ho; exact resolveServiceDef_trace ho) f.services R.svs R.e6
+  have t4 := flatOut_mapOut_trace (ce := ce) (resolveServiceDef ce) svcEvs
+    (fun c o ho => resolveServiceDef_trace ho) f.services R.svs (by rw [← hce]; exact R.e6)
   exact ⟨t1, ((t1.append t2).append t3).append t4⟩
 
 theorem usedFlags_congr {n : Nat} {m m' : List Nat} (h : ∀ u, u ∈ m ↔ u ∈ m') :
@@ -191,17 +193,18 @@ theorem resolveAST_perm {p : Program} {views : Nat → Option FileView} {gfuel i
     rw [hcur, hce]
   have e4f := R.e4
   have e5f := R.e5
-  rw [hce] at e4f e5f
+  have e6f := R.e6
+  rw [hce] at e4f e5f e6f
   obtain ⟨cs', e4'⟩ := flat_mapOut_perm _ hp.constants e4f
   obtain ⟨ss', e5'⟩ := flat_mapOut_perm _ hp.structLikes e5f
-  obtain ⟨svs', e6'⟩ := flat_mapOut_perm _ hp.services R.e6
+  obtain ⟨svs', e6'⟩ := flat_mapOut_perm _ hp.services e6f
   -- the trace of the permuted file
   have t2' := flatOut_mapOut_trace (ce := ce) (resolveConstantDef ce) _
     (fun c o ho => resolveConstantDef_trace ho) f'.constants cs' e4'
   have t3' := flatOut_mapOut_trace (ce := ce) (resolveStructLikeDef ce) _
     (fun c o ho => resolveStructLikeDef_trace ho) f'.structLikes ss' e5'
-  have t4' := flatOut_mapOut_trace (ce := ce) (resolveServiceDef (mkEnv R.n2cL R.incs)) svcEvs
-    (fun c o ho => by rw [← hceenv] at ho; exact resolveServiceDef_trace ho) f'.services svs' e6'
+  have t4' := flatOut_mapOut_trace (ce := ce) (resolveServiceDef ce) svcEvs
+    (fun c o ho => resolveServiceDef_trace ho) f'.services svs' e6'
   have tall' : Trace ce f'.events (Out.seq (Out.seq (Out.seq tds' cs') ss') svs') :=
     ((t1'.append t2').append t3').append t4'
   have teq := trace_equiv tall tall' hp.events hp.symm.events
@@ -230,7 +233,7 @@ theorem resolveAST_perm {p : Program} {views : Nat → Option FileView} {gfuel i
       e3 := by rw [henv]; exact e3'
       e4 := by rw [henv, hce']; exact e4'
       e5 := by rw [henv, hce']; exact e5'
-      e6 := by rw [henv]; exact e6'
+      e6 := by rw [henv, hce']; exact e6'
       e7 := by rw [henv, hcur]; exact e7'
       e8 := rfl }
   refine ⟨_, resolveAST_of_run R', ?_⟩
